@@ -610,7 +610,7 @@ def g_check(tier, res_violation_sink, okx):
 # ------------------------------------------------------------------------------------------------
 # H. the (multiplier, shift) pairs IN FORCE at every pooling / elementwise operation of compiled multi-operator
 #    networks (register snapshots of the emitted command stream)
-H_FAMS = [("pow2_rescale", 6), ("ew_dag", 4), ("diamond", 3), ("multi_input", 2)]
+H_FAMS = [("pow2_rescale", 6), ("ew_dag", 4), ("diamond", 3), ("multi_input", 2), ("single:quantize", 4), ("single:quant_chain", 4)]
 H_ACCS = [["--accelerator-config", "ethos-u55-128"], ["--accelerator-config", "ethos-u65-512"], ["--accelerator-config", "ethos-u65-256"]]
 K_OFM_SCALE, K_OPA_SCALE, K_OPB_SCALE = 1024 + 36, 1024 + 37, 1024 + 38
 OP_POOL, OP_ELEMENTWISE = 5, 6
@@ -847,12 +847,21 @@ def h_check(tier, okx):
                         continue
                     t = tfl_qm(si / s_o)                         # quantize.cc: double(input scale) / double(output scale)
                     judged("QUANTIZE")
-                    q_cases.append(decomp(si / s_o))
-                    q_where.append((job, co, ofm))
-                    if t[0] and not (31 - t[1] > 62) and not same_value(ofm, t):
-                        report("inforce-QUANTIZE", job, r, net, co, regs,
-                               "requantisation %r -> %r: OFM_SCALE in force %r, reference QuantizeMultiplier(s_in/s_out) = %r i.e. (%d, %d)"
-                               % (si, s_o, ofm, t, t[0], 31 - t[1]), extra)
+                    if Fraction(si / s_o).denominator & (Fraction(si / s_o).denominator - 1) == 0 and \
+                            float(np.float32(si) / np.float32(s_o)) != si / s_o:
+                        judged("QUANTIZE with a ratio that is not a float32 number")
+                    q_cases.append((53,) + decomp(si) + decomp(s_o))
+                    q_where.append((job, co, ofm, t))
+                    exact = Fraction(si) / Fraction(s_o)
+                    if t[0] and not (31 - t[1] > 62):
+                        why = None
+                        if tuple(ofm) != (t[0], 31 - t[1]):
+                            why = "reference QuantizeMultiplier(double(s_in)/double(s_out)) = %r i.e. (%d, %d)" % (t, t[0], 31 - t[1])
+                        elif abs(vela_value(ofm) - exact) > exact * (pow2(-31) + pow2(-52)):
+                            why = "relative error to the real ratio exceeds 2^-31"
+                        if why:
+                            report("inforce-QUANTIZE", job, r, net, co, regs,
+                                   "requantisation %r -> %r: OFM_SCALE in force %r, %s" % (si, s_o, ofm, why), extra)
                 elif kind == "AVERAGE_POOL_2D" and code == OP_POOL and cmd.get("original_type", "").endswith("AvgPool"):
                     pad = api.get("padding") or {}
                     k = api.get("kernel") or {}
@@ -900,10 +909,12 @@ def h_check(tier, okx):
             if o[0] != 1 or [ofm[0], ofm[1]] != o[1:3]:
                 diffs.append(("pool_scale (OFM_SCALE in force, %s/%s)" % (job["family"], job["seed"]),
                               {"operator_output": co["cmd"].get("primary_op_name")}, list(ofm), o))
-        for (job, co, ofm), o in zip(q_where, models.run("quantise_scale", q_cases, exe_name=EXE) if q_cases else []):
-            if [ofm[0], ofm[1]] != o:
-                diffs.append(("q_scale (OFM_SCALE in force, %s/%s)" % (job["family"], job["seed"]),
+        for (job, co, ofm, t), o in zip(q_where, models.run("fused_quantize", q_cases, exe_name=EXE) if q_cases else []):
+            if [ofm[0], ofm[1]] != o[0:2]:
+                diffs.append(("fused_quantize_scale (OFM_SCALE in force, %s/%s)" % (job["family"], job["seed"]),
                               {"operator_output": co["cmd"].get("primary_op_name")}, list(ofm), o))
+            if list(t) != o[2:4]:
+                diffs.append(("tfl_requantize_params(transcriptions)", {"operator_output": co["cmd"].get("primary_op_name")}, list(t), o[2:4]))
     if not okv:
         dist["decoder_build_log_tail"] = vlog[-300:]
     return evals, dist, diffs, bads
@@ -1301,6 +1312,42 @@ def run(tier):
                              "generate_ofm_scaling_for_pooling, %dx%d average pool, %s tensor scales: OFM_SCALE=(%d, %d) but quantise_pooling_scale "
                              "gives %r; accumulator %d -> %d, round-half-up division gives %d"
                              % (h, w, stype, s, sh, ref, acc, hw_scale(acc, s, sh), (2 * acc + n) // (2 * n)))
+    # QUANTIZE compiled as a 1x1 average pool with fused_quantize: OFM_SCALE = quantise_scale(double(s_in) / double(s_out))
+    fq_cases, fq_impl = [], []
+    for stype in ("float", "float32"):
+        for i in range(60 if not thorough else 1500):
+            a, o = rscale("f"), rscale("f")
+            if i == 0:
+                a, o = float.fromhex("0x1.230e26p-5"), float.fromhex("0x1.5e3bc2p-3")
+            cv = (lambda x: np.float32(x)) if stype == "float32" else (lambda x: x)
+            dti, dto = [(api.NpuDataType.INT8, api.NpuDataType.UINT8), (api.NpuDataType.UINT8, api.NpuDataType.INT8),
+                        (api.NpuDataType.INT16, api.NpuDataType.INT8), (api.NpuDataType.INT8, api.NpuDataType.INT8)][i % 4]
+            op = api.NpuPoolingOperation(api.NpuPoolingOp.AVERAGE)
+            op.ifm, op.ofm = _fm(api, dti, cv(a)), _fm(api, dto, cv(o))
+            op.kernel = api.NpuKernel(1, 1)
+            op.fused_quantize = True
+            em = _Emit()
+            rcsg.generate_ofm_scaling_for_pooling(em, op)
+            got = em.regs["NPU_SET_OFM_SCALE"]
+            site_n += 1
+            fq_cases.append((53,) + decomp(a) + decomp(o))
+            fq_impl.append(list(got))
+            t = tfl_qm(a / o)
+            exact = Fraction(a) / Fraction(o)
+            why = None
+            if t[0] and 31 - t[1] <= 62:
+                if tuple(got) != (t[0], 31 - t[1]):
+                    why = "reference QuantizeMultiplier(double(s_in)/double(s_out)) = %r i.e. (%d, %d)" % (t, t[0], 31 - t[1])
+                elif abs(vela_value(got) - exact) > exact * (pow2(-31) + pow2(-52)):
+                    why = "relative error to the real ratio exceeds 2^-31"
+            if why:
+                note_bad("site-fused-quantize-" + stype,
+                         {"site": "generate_ofm_scaling_for_pooling", "branch": "fused_quantize", "scale_type": stype, "scales": [a.hex(), o.hex()]},
+                         {"ifm_scale": a, "ofm_scale": o, "OFM_SCALE": list(got), "reason": why, "numpy": np.__version__},
+                         "generate_ofm_scaling_for_pooling, fused QUANTIZE %r -> %r, %s tensor scales: OFM_SCALE %r, %s" % (a, o, stype, got, why))
+    for c_, im, o_ in zip(fq_cases, fq_impl, model("fused_quantize", fq_cases)):
+        if okx and im != o_[0:2]:
+            diffs.append(("fused_quantize_scale (generate_ofm_scaling_for_pooling)", {"ifm": c_[1:3], "ofm": c_[3:5]}, im, o_))
     ops = [(api.NpuElementWiseOp.ADD, "ADD"), (api.NpuElementWiseOp.SUB, "SUB"), (api.NpuElementWiseOp.MUL, "MUL")]
     rev_cases, rev_impl = [], []
     for stype in ("float", "float32"):
